@@ -37,7 +37,7 @@ def gen_labels(rng, n, kind=None):
     p = [[j // 3, j % 3] for j in range(n)]; rng.shuffle(p); return kind, p
 
 
-def gen_graph(rng, nmin=3, nmax=9, isolated=True):
+def gen_graph(rng, nmin=3, nmax=9, isolated=True, force_iso=False):
     """edges as index pairs (insertion order shuffled); at least one edge"""
     n = rng.randint(nmin, nmax)
     shape = rng.choice(['er', 'er', 'er', 'tree', 'regular', 'star'])
@@ -62,6 +62,11 @@ def gen_graph(rng, nmin=3, nmax=9, isolated=True):
         for i in range(n):
             if deg[i] == 0:
                 j = rng.choice([x for x in range(n) if x != i]); edges.append([i, j]); deg[i] += 1; deg[j] += 1
+    if isolated and force_iso and n >= 4:
+        # make sure there IS a node of degree 0 (sparse random graphs rarely have one): cut one or two nodes off, keep an edge
+        for k in rng.sample(range(n), rng.randint(1, 2)):
+            rest = [e for e in edges if k not in e]
+            if rest: edges = rest
     edges = [e if rng.random() < 0.5 else [e[1], e[0]] for e in edges]
     rng.shuffle(edges)
     return n, edges
@@ -93,8 +98,8 @@ def gen_ic(rng, n, edges, sir, modes=('rho', 'default', 'sets', 'sets', 'sets'))
     return {'mode': 'rho', 'rho': '1/4'}
 
 
-def gen_case(rng, entry, full, sir, isolated=True, modes=None, nmax=9, discrete=False):
-    n, edges = gen_graph(rng, nmax=nmax, isolated=isolated)
+def gen_case(rng, entry, full, sir, isolated=True, modes=None, nmax=9, discrete=False, force_iso=False):
+    n, edges = gen_graph(rng, nmax=nmax, isolated=isolated, force_iso=force_iso)
     kind, labels = gen_labels(rng, n)
     ic = gen_ic(rng, n, edges, sir, modes or ('rho', 'default', 'sets', 'sets', 'sets'))
     tau = rng.choice(TAUS); gamma = rng.choice(GAMMAS)
